@@ -137,6 +137,8 @@ def build_ml():
     with Lock("ml"):
         drv = os.path.join(ML, "driver")
         model = os.path.join(ML, "model.ml")
+        from . import gen
+        gen.regenerate_all()
         src_m = newest_mtime(coq_sources())
         if not os.path.exists(model) or os.path.getmtime(model) < src_m:
             rc, out = sh(["coqc", "-Q", os.path.join(COQ, "theories"), "Avfs",
@@ -144,9 +146,11 @@ def build_ml():
             if rc != 0:
                 return False, out
         glue = [model, os.path.join(ML, "conv.ml"), os.path.join(ML, "driver.ml")]
+        drvs = sorted(glob.glob(os.path.join(ML, "drv_*.ml")))
+        glue += drvs
         if not os.path.exists(drv) or os.path.getmtime(drv) < newest_mtime(glue):
             rc, out = sh(["ocamlfind", "ocamlopt", "-w", "-a", "-package", "str", "-linkpkg",
-                          "model.mli", "model.ml", "conv.ml", "driver.ml", "-o", "driver"], cwd=ML, timeout=900)
+                          "model.mli", "model.ml", "conv.ml"] + [os.path.basename(d) for d in drvs] + ["driver.ml", "-o", "driver"], cwd=ML, timeout=900)
             if rc != 0:
                 return False, out
         return True, ""
@@ -469,6 +473,7 @@ def main(argv):
     except ValueError:
         seed = 1
     from . import props
+    props.load_all()
     if prop not in props.CHECKS:
         print("no check for", prop)
         return 2
